@@ -539,36 +539,61 @@ Qed.
 
 (* ---------- summary: what an encoded file looks like ---------- *)
 
-Definition file_enc (dt : dtype) (a : arr4) (g : geom) (W : list N) (chans : list (list N)) : Prop :=
+(* [vl] lists the padded blocks of a channel in grid order; every block is
+   described by its header words in [Wc]; the block at grid position
+   (zb,yb,xb) is the padded slice of the chunk *)
+Definition chan_enc (dt : dtype) (a : arr4) (g : geom) (c : N) (Wc : list N) (vl : list (list N)) : Prop :=
   let gx := grid_x a g in let gy := grid_y a g in let gz := grid_z a g in
+  w32 Wc /\ 2 * (gx * gy * gz) <= lenN Wc /\ lenN vl = gx * gy * gz /\
+  (forall k, k < gx * gy * gz ->
+     lenN (nthN vl k []) = g_bz g * g_by g * g_bx g /\
+     Forall (fun v => v < dt_bound dt) (nthN vl k []) /\
+     blk_enc dt Wc k (nthN vl k [])) /\
+  (forall zb yb xb, zb < gz -> yb < gy -> xb < gx ->
+     exists pad, nthN vl (xb + gx * (yb + gy * zb)) [] = block_padded a g c zb yb xb pad).
+
+Definition file_enc (dt : dtype) (a : arr4) (g : geom) (W : list N) (chans : list (list N)) : Prop :=
   W = offsets_from (a_c a) chans ++ concat chans /\ lenN chans = a_c a /\ w32 W /\
-  forall c, c < a_c a ->
-    2 * (gx * gy * gz) <= lenN (nthN chans c []) /\
-    forall zb yb xb, zb < gz -> yb < gy -> xb < gx ->
-      exists pad,
-        Forall (fun v => v < dt_bound dt) (block_padded a g c zb yb xb pad) /\
-        blk_enc dt (nthN chans c []) (xb + gx * (yb + gy * zb)) (block_padded a g c zb yb xb pad).
+  forall c, c < a_c a -> exists vl, chan_enc dt a g c (nthN chans c []) vl.
+
+Lemma grid_index_lt gx gy gz xb yb zb :
+  xb < gx -> yb < gy -> zb < gz -> xb + gx * (yb + gy * zb) < gx * gy * gz.
+Proof. intros. assert (yb + gy * zb + 1 <= gy * gz) by nia. nia. Qed.
+
+Lemma encode_channel_chan_enc dt a g c Wc :
+  wf_arr (dt_bound dt) a -> encode_channel dt a g c = Ok Wc -> exists vl, chan_enc dt a g c Wc vl.
+Proof.
+  intros Hwf Hch.
+  destruct (encode_channel_enc dt a g c _ Hwf Hch) as (Hw & Hl & vl & HF & Hblk).
+  exists vl. unfold chan_enc. cbv zeta.
+  set (gx := grid_x a g) in *. set (gy := grid_y a g) in *. set (gz := grid_z a g) in *.
+  assert (Hlen : lenN vl = gx * gy * gz).
+  { rewrite <- (Forall2_lenN _ _ _ HF), block_coords_length. lia. }
+  split; [exact Hw|]. split; [exact Hl|]. split; [exact Hlen|]. split.
+  - intros k Hk.
+    assert (Hk' : k < lenN (block_coords gz gy gx)) by (rewrite block_coords_length; lia).
+    assert (R := Forall2_nthN _ _ _ _ (0, 0, 0) [] HF Hk'). cbv beta in R.
+    assert (Hb := block_vals_bound dt a g c _ _ Hwf R).
+    destruct (nthN (block_coords gz gy gx) k (0, 0, 0)) as [[zb yb] xb].
+    destruct (block_vals_form _ _ _ _ _ _ _ R) as (pad & Ev & _).
+    split; [rewrite Ev; apply block_padded_length|]. split; [exact Hb|]. now apply Hblk.
+  - intros zb yb xb Hz Hy Hx.
+    assert (Hk := grid_index_lt gx gy gz xb yb zb Hx Hy Hz).
+    assert (Hk' : xb + gx * (yb + gy * zb) < lenN (block_coords gz gy gx)).
+    { rewrite block_coords_length. lia. }
+    assert (R := Forall2_nthN _ _ _ _ (0, 0, 0) [] HF Hk'). cbv beta in R.
+    rewrite block_coords_nth in R by assumption.
+    destruct (block_vals_form _ _ _ _ _ _ _ R) as (pad & Ev & _).
+    exists pad. exact Ev.
+Qed.
 
 Lemma encode_words_file_enc dt a g W :
   wf_arr (dt_bound dt) a -> encode_words dt a g = Ok W -> exists chans, file_enc dt a g W chans.
 Proof.
   intros Hwf E. destruct (encode_words_layout dt a g W Hwf E) as (chans & EW & Hlen & Hw & Hch).
-  exists chans. unfold file_enc. cbv zeta.
+  exists chans. unfold file_enc.
   split; [exact EW|]. split; [exact Hlen|]. split; [exact Hw|].
-  intros c Hc. specialize (Hch c Hc).
-  destruct (encode_channel_enc dt a g c _ Hwf Hch) as (_ & Hl & vl & HF & Hblk).
-  split; [exact Hl|].
-  intros zb yb xb Hz Hy Hx.
-  set (gx := grid_x a g) in *. set (gy := grid_y a g) in *. set (gz := grid_z a g) in *.
-  assert (Hk : xb + gx * (yb + gy * zb) < gx * gy * gz).
-  { assert (yb + gy * zb + 1 <= gy * gz) by nia. nia. }
-  assert (Hk' : xb + gx * (yb + gy * zb) < lenN (block_coords gz gy gx)).
-  { rewrite block_coords_length. lia. }
-  assert (R := Forall2_nthN _ _ _ _ (0, 0, 0) [] HF Hk'). cbv beta in R.
-  rewrite block_coords_nth in R by assumption.
-  assert (Hb := block_vals_bound dt a g c _ _ Hwf R).
-  destruct (block_vals_form _ _ _ _ _ _ _ R) as (pad & Ev & _).
-  exists pad. rewrite <- Ev. split; [exact Hb|]. apply Hblk. exact Hk.
+  intros c Hc. apply encode_channel_chan_enc; [exact Hwf|]. now apply Hch.
 Qed.
 
 Lemma cseg_encode_file_enc dt nc g a buf :
